@@ -167,8 +167,19 @@ pub fn lazy_ex(j: &J, src: &mut Src) -> Ex {
 		}
 		J::Obj(f) => {
 			let fields: Vec<(String, Ex)> = f.iter().map(|(k, v)| (k.clone(), lazy_ex(v, src))).collect();
-			match src.below(6) {
+			match src.below(7) {
 				0 => Ex::Obj(fields.iter().map(|(k, v)| fld(k, false, Vis::Normal, v.clone())).collect()),
+				6 => {
+					// visibility folding over layers: three decoys that end up hidden in three different ways
+					// (::: then ::, :: then plain :, plain : then ::); a visible decoy would fail the manifestation
+					let boom = || Ex::Error(bx(s("hidden decoy must not be manifested")));
+					let mut base: Vec<Member> = fields.iter().map(|(k, v)| fld(k, false, Vis::Normal, v.clone())).collect();
+					base.push(fld("zz-d1", false, Vis::Unhide, boom()));
+					base.push(fld("zz-d2", false, Vis::Hidden, boom()));
+					base.push(fld("zz-d3", false, Vis::Normal, boom()));
+					let top = vec![fld("zz-d1", false, Vis::Hidden, boom()), fld("zz-d2", false, Vis::Normal, boom()), fld("zz-d3", false, Vis::Hidden, boom())];
+					Ex::Bin(BinOp::Add, bx(Ex::Obj(base)), bx(Ex::Obj(top)))
+				}
 				1 => {
 					// inheritance: split over two layers; a hidden decoy that must not appear
 					let k = src.below(fields.len() + 1);
